@@ -127,3 +127,28 @@ package shape
 //@   loop 0 unroll 8
 //@   ensures r0 != nil
 //@ end
+
+//@ -- C06 / C15 / C16 (error behaviour, end-point voxels, single-voxel case, duplicate-freedom): the line.
+//@ -- The midpoint recursion (float thresholds, C06 proper) is ASSUMED to terminate without panicking and to do nothing
+//@ -- but emit IDs through its callback.
+//@ define ptid(p: object_Point, h, v) = join(getHorizontalTileIdOnPoint(p.lon, p.lat, h), getVerticalTileIdOnAltitude(p.alt, v))
+//@ func middleSpatialIds
+//@   trusted
+//@   emits operate
+//@ end
+//@ func GetExtendedSpatialIdsOnLine
+//@   props C06 C14 C15 C16
+//@   nooverflow
+//@   ensures [err-nil] start == nil || end == nil ==> r1 != nil && len(r0) == 0
+//@   ensures [err-zoom] start != nil && end != nil && !(0 <= hZoom && hZoom <= 35 && 0 <= vZoom && vZoom <= 35) ==> r1 != nil && len(r0) == 0
+//@   ensures [ok] start != nil && end != nil && 0 <= hZoom && hZoom <= 35 && 0 <= vZoom && vZoom <= 35 ==> r1 == nil
+//@   ensures [nodup] r1 == nil ==> nodup(r0)
+//@   ensures [end-points] r1 == nil ==> in(join(getHorizontalTileIdOnPoint(start.lon, start.lat, hZoom), getVerticalTileIdOnAltitude(start.alt, vZoom)), r0) && in(join(getHorizontalTileIdOnPoint(end.lon, end.lat, hZoom), getVerticalTileIdOnAltitude(end.alt, vZoom)), r0)
+//@   ensures [single-voxel] r1 == nil && join(getHorizontalTileIdOnPoint(start.lon, start.lat, hZoom), getVerticalTileIdOnAltitude(start.alt, vZoom)) == join(getHorizontalTileIdOnPoint(end.lon, end.lat, hZoom), getVerticalTileIdOnAltitude(end.alt, vZoom)) ==> len(r0) == 1 && r0[0] == join(getHorizontalTileIdOnPoint(start.lon, start.lat, hZoom), getVerticalTileIdOnAltitude(start.alt, vZoom))
+//@ end
+//@ func GetSpatialIdsOnLine
+//@   props C06 C15
+//@   nooverflow
+//@   ensures [err-nil] start == nil || end == nil ==> r1 != nil
+//@   ensures [err-zoom] start != nil && end != nil && !(0 <= zoom && zoom <= 35) ==> r1 != nil
+//@ end
